@@ -579,7 +579,7 @@ example : ∃ ks, keysOf headKey [pr (iv 1) 0, pr (iv 2) 1, pr (iv 2) 2] = .ok k
 /-! ## D. mixed-type errors of `sort_by` / `max_by` / `min_by` for every array tag
 
   For a map-ordered array (`enum`, ≥ 2 elements) the model widens an error to every category some element could
-  produce, plus invalid-type. When every key evaluation succeeds the only candidate is invalid-type, so the outcome is
+  produce, plus invalid-type (and answers `nondet` when some key evaluation is neither a value nor an error). When every key evaluation succeeds the only candidate is invalid-type, so the outcome is
   the same definite error as for a plain array. -/
 
 theorem dedup_pair (c : Cat) : Cat.dedup [c, c] = [c] := by simp [Cat.dedup]
@@ -604,14 +604,19 @@ theorem widen_invalidType_of_ok {α} {t : ATag} {xs : List Val} {f : Val → Res
     widen (α := α) t xs [f] [Cat.invalidType] (.err [Cat.invalidType]) = .err [Cat.invalidType] := by
   simp only [widen]
   split
-  · have : ∀ l : List Cat, l = [] →
-        (Res.err (Cat.dedup ([Cat.invalidType] ++ [Cat.invalidType] ++ l)) : Res α) = .err [Cat.invalidType] := by
-      intro l hl; subst hl; rfl
-    apply this
-    rw [List.flatMap_eq_nil_iff]
-    intro x hx
-    obtain ⟨v, hv⟩ := hall x hx
-    simp [hv]
+  · rw [if_neg]
+    · have : ∀ l : List Cat, l = [] →
+          (Res.err (Cat.dedup ([Cat.invalidType] ++ [Cat.invalidType] ++ l)) : Res α) = .err [Cat.invalidType] := by
+        intro l hl; subst hl; rfl
+      apply this
+      rw [List.flatMap_eq_nil_iff]
+      intro x hx
+      obtain ⟨v, hv⟩ := hall x hx
+      simp [hv]
+    · rw [Bool.not_eq_true, List.any_eq_false]
+      intro x hx
+      obtain ⟨v, hv⟩ := hall x hx
+      simp [hv]
   · rfl
 
 /-- `sort_by` with keys of mixed type, all key evaluations succeeding: invalid-type for EVERY tag and length ≥ 1 -/
@@ -658,10 +663,47 @@ theorem arrayPickBy_mixed_error_any {better} {f : Val → Res Val} {t : ATag} {x
   rw [hk]
   exact widen_invalidType_of_ok hall'
 
-theorem widen_err_enum {α} {t : ATag} {xs : List Val} {fs : List (Val → Res Val)} {extra cs : List Cat}
-    (he : enum2 t xs = true) :
-    ∃ c', widen (α := α) t xs fs extra (.err cs) = .err c' ∧ (∀ x ∈ cs, x ∈ c') ∧ (∀ x ∈ extra, x ∈ c') := by
+/-- every key evaluation is settled: a value or an error (not `nondet`, `panic`, `unmodelled`) -/
+def KeysSettled (f : Val → Res Val) (xs : List Val) : Prop :=
+  ∀ x ∈ xs, (∃ v, f x = .ok v) ∨ (∃ c, f x = .err c)
+
+theorem widen_err_settled {α} {t : ATag} {xs : List Val} {f : Val → Res Val} {extra cs : List Cat}
+    (hs : KeysSettled f xs) :
+    widen (α := α) t xs [f] extra (.err cs) ≠ .nondet := by
+  simp only [widen]
+  split
+  · split
+    · rename_i h
+      rw [List.any_eq_true] at h
+      obtain ⟨x, hx, h⟩ := h
+      rcases hs x hx with ⟨v, hv⟩ | ⟨c, hc⟩
+      · simp [hv] at h
+      · simp [hc] at h
+    · intro h; cases h
+  · intro h; cases h
+
+theorem widen_err_unsettled {α} {t : ATag} {xs : List Val} {f : Val → Res Val} {extra cs : List Cat}
+    (he : enum2 t xs = true) (hs : ¬ KeysSettled f xs) :
+    widen (α := α) t xs [f] extra (.err cs) = .nondet := by
   simp only [widen, he, if_true]
+  split
+  · rfl
+  · rename_i h
+    exfalso
+    apply hs
+    intro x hx
+    cases hfx : f x with
+    | ok v => exact .inl ⟨v, rfl⟩
+    | err c => exact .inr ⟨c, rfl⟩
+    | _ => exact absurd (List.any_eq_true.mpr ⟨x, hx, by simp [hfx]⟩) h
+
+theorem widen_err_enum {α} {t : ATag} {xs : List Val} {f : Val → Res Val} {extra cs : List Cat}
+    (he : enum2 t xs = true) (hs : KeysSettled f xs) :
+    ∃ c', widen (α := α) t xs [f] extra (.err cs) = .err c' ∧ (∀ x ∈ cs, x ∈ c') ∧ (∀ x ∈ extra, x ∈ c') := by
+  have hn := widen_err_settled (α := α) (t := t) (extra := extra) (cs := cs) hs
+  simp only [widen, he, if_true] at hn ⊢
+  split
+  · rename_i h; rw [if_pos h] at hn; exact absurd rfl hn
   refine ⟨_, rfl, ?_, ?_⟩
   · intro y hy
     rw [mem_dedup]
@@ -670,10 +712,12 @@ theorem widen_err_enum {α} {t : ATag} {xs : List Val} {fs : List (Val → Res V
     rw [mem_dedup]
     simp [hy]
 
-/-- In general (some key evaluations may fail too): whatever error the key scan hits, the outcome for any tag is an
-    error whose category set contains it; for a map-ordered array it also contains invalid-type. -/
+/-- In general (some key evaluations may fail too, but each is a value or an error — for a map-ordered array with a
+    key evaluation that is not settled the model answers `nondet`, see `sortArrayBy_keys_err_unsettled`): whatever
+    error the key scan hits, the outcome for any tag is an error whose category set contains it; for a map-ordered
+    array it also contains invalid-type. -/
 theorem sortArrayBy_keys_err_any {f : Val → Res Val} {t : ATag} {xs : List Val} {c : List Cat} (hne : xs ≠ [])
-    (hk : keysOf f xs = .err c) :
+    (hk : keysOf f xs = .err c) (hs : enum2 t xs = true → KeysSettled f xs) :
     ∃ c', sortArrayBy f (.arr t xs) = .err c' ∧ (∀ x ∈ c, x ∈ c') ∧
       (enum2 t xs = false → c' = c) ∧ (enum2 t xs = true → Cat.invalidType ∈ c') := by
   unfold sortArrayBy
@@ -687,11 +731,11 @@ theorem sortArrayBy_keys_err_any {f : Val → Res Val} {t : ATag} {xs : List Val
       refine ⟨c, ?_, fun _ h => h, fun _ => rfl, fun h => by cases h⟩
       simp [widen, he, Res.bind, bind]
     | true =>
-      obtain ⟨c', h1, h2, h3⟩ := widen_err_enum (α := Val) (fs := [f]) (extra := [Cat.invalidType]) (cs := c) he
+      obtain ⟨c', h1, h2, h3⟩ := widen_err_enum (α := Val) (extra := [Cat.invalidType]) (cs := c) he (hs he)
       exact ⟨c', h1, h2, (fun h => Bool.noConfusion h), (fun _ => h3 _ (by simp))⟩
 
 theorem arrayPickBy_keys_err_any {better} {f : Val → Res Val} {t : ATag} {xs : List Val} {c : List Cat}
-    (hne : xs ≠ []) (hk : keysOf f xs = .err c) :
+    (hne : xs ≠ []) (hk : keysOf f xs = .err c) (hs : enum2 t xs = true → KeysSettled f xs) :
     ∃ c', arrayPickBy better f (.arr t xs) = .err c' ∧ (∀ x ∈ c, x ∈ c') ∧
       (enum2 t xs = false → c' = c) ∧ (enum2 t xs = true → Cat.invalidType ∈ c') := by
   unfold arrayPickBy
@@ -705,8 +749,45 @@ theorem arrayPickBy_keys_err_any {better} {f : Val → Res Val} {t : ATag} {xs :
       refine ⟨c, ?_, fun _ h => h, fun _ => rfl, fun h => by cases h⟩
       simp [widen, he, Res.bind, bind]
     | true =>
-      obtain ⟨c', h1, h2, h3⟩ := widen_err_enum (α := Val) (fs := [f]) (extra := [Cat.invalidType]) (cs := c) he
+      obtain ⟨c', h1, h2, h3⟩ := widen_err_enum (α := Val) (extra := [Cat.invalidType]) (cs := c) he (hs he)
       exact ⟨c', h1, h2, (fun h => Bool.noConfusion h), (fun _ => h3 _ (by simp))⟩
+
+/-- the key scan hits an error on a map-ordered array and some key evaluation is not settled (it is `nondet`,
+    `panic` or `unmodelled`): that element may be the first to fail under another enumeration order, with a category
+    the model cannot name, so the model answers `nondet` -/
+theorem sortArrayBy_keys_err_unsettled {f : Val → Res Val} {t : ATag} {xs : List Val} {c : List Cat}
+    (hk : keysOf f xs = .err c) (he : enum2 t xs = true) (hs : ¬ KeysSettled f xs) :
+    sortArrayBy f (.arr t xs) = .nondet := by
+  unfold sortArrayBy
+  cases xs with
+  | nil => simp [enum2] at he
+  | cons x xs =>
+    simp only [List.isEmpty_cons, Bool.false_eq_true, if_false]
+    rw [hk]
+    exact widen_err_unsettled he hs
+
+theorem arrayPickBy_keys_err_unsettled {better} {f : Val → Res Val} {t : ATag} {xs : List Val} {c : List Cat}
+    (hk : keysOf f xs = .err c) (he : enum2 t xs = true) (hs : ¬ KeysSettled f xs) :
+    arrayPickBy better f (.arr t xs) = .nondet := by
+  unfold arrayPickBy
+  cases xs with
+  | nil => simp [enum2] at he
+  | cons x xs =>
+    simp only
+    rw [hk]
+    exact widen_err_unsettled he hs
+
+/-- a key function whose outcome on `null` is not settled -/
+def nullNondetKey : Val → Res Val := fun x => match x with | .null => .nondet | x => .ok x
+
+example : sortArrayBy nullNondetKey (.arr .enum [sv 0x61, iv 1, .null]) = .nondet :=
+  sortArrayBy_keys_err_unsettled (c := [Cat.invalidType]) rfl rfl
+    (fun h => by rcases h .null (by simp) with ⟨v, hv⟩ | ⟨c, hc⟩ <;> simp [nullNondetKey] at *)
+example : arrayMaxBy nullNondetKey (.arr .enum [sv 0x61, iv 1, .null]) = .nondet :=
+  arrayPickBy_keys_err_unsettled (c := [Cat.invalidType]) rfl rfl
+    (fun h => by rcases h .null (by simp) with ⟨v, hv⟩ | ⟨c, hc⟩ <;> simp [nullNondetKey] at *)
+/-- for a plain array the same scan is the definite error -/
+example : sortArrayBy nullNondetKey (.arr .plain [sv 0x61, iv 1, .null]) = .err [Cat.invalidType] := rfl
 
 example : sortArrayBy idKey (.arr .enum [sv 0x61, sv 0x62, iv 1]) = .err [Cat.invalidType] :=
   sortArrayBy_mixed_error_any (v0 := sv 0x61) rfl (by intro x _; exact ⟨x, rfl⟩)
